@@ -59,6 +59,69 @@ def classify_undo_failure(out, exc_text):
   return 'undo-raises'
 
 
+def _cells_of(a):
+  """(table, {col: set(rows)}) written by an Update action repr."""
+  if a[0] == 'UpdateRecord':
+    return a[1], {c: {a[2]} for c in a[3]}
+  if a[0] == 'BulkUpdateRecord':
+    return a[1], {c: set(a[2]) for c in a[3]}
+  return None, {}
+
+
+def classify_restore_failure(out):
+  """Root cause of an undo that runs but does not restore, from the bundle's own stored/undo lists."""
+  stored = G.reprs(out.stored)
+  undo = G.reprs(out.undo)
+  # (R2) data -> formula ModifyColumn with a type change: the conversion delta is restored BEFORE the ModifyColumn undo
+  for a in stored:
+    if a[0] == 'ModifyColumn' and a[3].get('isFormula') and 'type' in a[3]:
+      t, c = a[1], a[2]
+      pos_mod = [i for i, u in enumerate(undo) if u[0] == 'ModifyColumn' and u[1] == t and u[2] == c]
+      pos_upd = [i for i, u in enumerate(undo) if _cells_of(u)[0] == t and c in _cells_of(u)[1]]
+      if pos_mod and pos_upd and max(pos_upd) > min(pos_mod):
+        return 'undo-does-not-restore:to-formula-type-change'
+  # (R3) a restore in the leading run of updates of the undo list (front-inserted restores live there) that puts back
+  #      a value which a doc action of this very bundle wrote into that cell, for a row the bundle removed
+  def values_of(a):
+    if a[0] == 'UpdateRecord':
+      return {(c, a[2]): v for c, v in a[3].items()}
+    if a[0] == 'BulkUpdateRecord':
+      return {(c, r): vs[k] for c, vs in a[3].items() for k, r in enumerate(a[2])}
+    return {}
+  removed_rows = collections.defaultdict(set)
+  for a in stored:
+    if a[0] == 'RemoveRecord':
+      removed_rows[a[1]].add(a[2])
+    elif a[0] == 'BulkRemoveRecord':
+      removed_rows[a[1]].update(a[2])
+  written = collections.defaultdict(list)
+  for a in stored:
+    for (c, r), v in values_of(a).items():
+      written[(a[1], c, r)].append(G.norm(v))
+  for u in undo:
+    if u[0] not in ('UpdateRecord', 'BulkUpdateRecord'):
+      break
+    for (c, r), v in values_of(u).items():
+      if r in removed_rows[u[1]] and G.norm(v) in written[(u[1], c, r)]:
+        return 'undo-does-not-restore:front-restore-of-written-cell'
+  return 'undo-does-not-restore'
+
+
+def strict_diff(a, b, limit=6):
+  d = G.diff_snapshots(a, b, limit)
+  if d:
+    return d
+  out = []
+  for t in sorted(set(a) & set(b)):
+    for c in sorted(set(a[t]['cols']) & set(b[t]['cols'])):
+      for rid, x, y in zip(a[t]['ids'], a[t]['cols'][c], b[t]['cols'][c]):
+        if json.dumps(x, sort_keys=True, default=repr) != json.dumps(y, sort_keys=True, default=repr):
+          out.append('%s.%s[row %s]: %r vs %r' % (t, c, rid, x, y))
+          if len(out) >= limit:
+            return out
+  return out or ['canonical JSON of the snapshots differs']
+
+
 def undo_redo_oracle(e, out, before, after, before_schema):
   """C01/C03 oracle for a bundle that has just been applied (engine is left in the post-bundle state when the
   oracles pass).  Returns a list of (prop, kind, what)."""
@@ -72,8 +135,8 @@ def undo_redo_oracle(e, out, before, after, before_schema):
     res.append(('C01', classify_undo_failure(out, t), t[-300:]))
     return res
   u = G.snapshot(e)
-  if u != before:
-    res.append(('C01', 'undo-does-not-restore', '; '.join(G.diff_snapshots(before, u))))
+  if G.canon(u) != G.canon(before):      # canon (JSON text) also tells True from 1, which == does not
+    res.append(('C01', classify_restore_failure(out), '; '.join(strict_diff(before, u))))
   if G.engine_schema(e) != before_schema:
     res.append(('C01', 'undo-schema-differs', 'engine schema after undo differs'))
   try:
@@ -82,8 +145,8 @@ def undo_redo_oracle(e, out, before, after, before_schema):
     res.append(('C03', 'redo-raises', traceback.format_exc()[-300:]))
     return res
   rd = G.snapshot(e)
-  if rd != after:
-    res.append(('C03', 'redo-differs', '; '.join(G.diff_snapshots(after, rd))))
+  if G.canon(rd) != G.canon(after):
+    res.append(('C03', 'redo-differs', '; '.join(strict_diff(after, rd))))
   return res
 
 
@@ -116,6 +179,8 @@ def replay_witness(w, prop):
   e = build(w.get('history', []))
   if w.get('whole_history'):
     d = whole_history_undo(w['history'])
+    if d and w.get('kind') and not d.startswith(w['kind'] + ':'):
+      return None
     return d
   issues, _out = check_bundle(e, w['bundle'])
   for p, kind, what in issues:
@@ -124,27 +189,58 @@ def replay_witness(w, prop):
   return None
 
 
+def classify_history_failure(tb):
+  if "KeyError: '#lookup#" in tb and 'in RenameTable' in tb:
+    return 'history-undo-raises:rename-table-lookup-column'
+  return 'history-undo-raises'
+
+
 def whole_history_undo(history):
   """Applies the bundles, then undoes all successful ones in reverse; description if the start is not reached."""
   e, _ = G.new_doc()
   start = G.snapshot(e)
   undos = []
   for b in history:
+    before = G.canon(G.snapshot(e))
     try:
       out = G.apply(e, b)
       undos.append(G.reprs(out.undo))
     except Exception:
       G.clean(e)
+      if G.canon(G.snapshot(e)) != before:
+        return None        # a failed bundle left a trace (C04's subject): not a history C01 speaks about
   for i, u in enumerate(reversed(undos)):
     try:
       G.apply(e, [['ApplyUndoActions', u]])
     except Exception:
-      return 'undoing bundle %d of %d (in reverse) raises: %s' % (len(undos) - i, len(undos), traceback.format_exc()[-300:])
+      tb = traceback.format_exc()
+      return '%s: undoing bundle %d of %d (in reverse) raises: %s' % (classify_history_failure(tb), len(undos) - i,
+                                                                     len(undos), tb[-300:])
   end = G.snapshot(e)
-  if end != start:
+  if G.canon(end) != G.canon(start):
     return 'after undoing all bundles in reverse the document differs from the start: ' + \
-           '; '.join(G.diff_snapshots(start, end))
+           '; '.join(strict_diff(start, end))
   return None
+
+
+def shrink_history_issue(history, kind):
+  """Smaller history on which undoing everything in reverse still fails in the same way."""
+  def fails(h):
+    try:
+      d = whole_history_undo(h)
+    except Exception:
+      return False
+    return bool(d) and d.startswith(kind + ':')
+  if not fails(history):
+    return history
+  h = histgen.shrink_list(history, fails, max_steps=120)
+  # then shrink inside the bundles
+  for k in range(len(h)):
+    if len(h[k]) > 1:
+      def fails_b(b, k=k):
+        return fails(h[:k] + [b] + h[k + 1:])
+      h = h[:k] + [histgen.shrink_list(h[k], fails_b, max_steps=30)] + h[k + 1:]
+  return h
 
 
 def shrink_issue(history, bundle, prop, kind):
@@ -168,6 +264,59 @@ def shrink_issue(history, bundle, prop, kind):
 
 # ---------------------------------------------------------------------------------------------------------
 # traced history run (cached)
+
+class PendGen(histgen.HistGen):
+  """histgen plus bundles built to put renames/removals between a calc delta and the flush: a formula column is
+  turned into a data column (doModifyColumn brings it and what it reads up to date in mid-bundle, which leaves
+  deltas pending for the columns it reads), then columns/rows/tables around it are renamed or removed."""
+  directed = 0.45
+
+  def _on_table(self, t, kind, meta):
+    saved = self.pick_table
+    self.pick_table = lambda m, summary=False: t if not summary else saved(m, summary=True)
+    try:
+      return self.gen(kind, meta)
+    finally:
+      self.pick_table = saved
+
+  def bundle(self, e, max_len=3):
+    r = self.r
+    if r.random() >= self.directed:
+      return histgen.HistGen.bundle(self, e, max_len)
+    meta = histgen.Meta(e)
+    cands = [t for t in meta.user_tables() if meta.formula_cols(t['id'])]
+    if not cands:
+      a = self._on_table(r.choice(meta.user_tables()), 'addformula', meta) if meta.user_tables() else None
+      return [a] if a else histgen.HistGen.bundle(self, e, max_len)
+    t = r.choice(cands)
+    tid = t['tableId']
+    fcs = meta.formula_cols(t['id'])
+    acts = []
+    for _ in range(r.randint(0, 2)):
+      a = self._on_table(t, r.choice(['addrec', 'updrec', 'updrec', 'rmrec']), meta)
+      if a:
+        acts.append(a)
+    top = max(fcs, key=self.level_of)
+    acts.append(['ModifyColumn', tid, r.choice([top, r.choice(fcs)])['colId'], {'isFormula': False}])
+    for _ in range(r.randint(1, 3)):
+      k = r.choice(['rencol', 'rmcol', 'rmcol', 'rentable', 'rmtable', 'rmrec', 'addrec', 'modtype'])
+      if k in ('rencol', 'rmcol') and fcs:
+        c = r.choice(fcs)['colId']
+        acts.append(['RenameColumn', tid, c, r.choice(histgen.COL_NAMES)] if k == 'rencol' else ['RemoveColumn', tid, c])
+      elif k == 'rentable':
+        new = r.choice(histgen.TABLE_NAMES)
+        acts.append(['RenameTable', tid, new])
+        break                                  # later actions would use the old table id
+      elif k == 'rmtable':
+        acts.append(['RemoveTable', tid])
+        break
+      else:
+        a = self._on_table(t, k, meta)
+        if a:
+          acts.append(a)
+    self.stats['directed'] += 1
+    return acts
+
 
 def own_hash():
   h = hashlib.sha1()
@@ -212,7 +361,8 @@ def _traced_run(ctx, n_hist, nb):
   with k1trace.instrumented():
     for i in range(n_hist):
       r = random.Random(base * 100003 + i)
-      gen = histgen.HistGen(r, weights=WEIGHTS if i % 2 else None)
+      gen = PendGen(r, weights=WEIGHTS if i % 2 else None)
+      gen.directed = [0.0, 0.3, 0.6][i % 3]
       e, _ = G.new_doc()
       history = []
       for _ in range(r.randint(1, 2)):
@@ -224,8 +374,15 @@ def _traced_run(ctx, n_hist, nb):
         except Exception:
           G.clean(e)
       if r.random() < 0.5:
-        gen.init_doc(e, n_tables=1)       # some formulas and rows (not part of the replayable history prefix)
-        history = None
+        # some formulas and rows; init_doc applies its bundles through gen._do: record them for the replays
+        orig_do = gen._do
+        def _do(e_, b_, orig_do=orig_do, history=history):
+          out_ = orig_do(e_, b_)
+          history.append(b_)            # failed ones are cleaned, exactly as build() does on replay
+          return out_
+        gen._do = _do
+        gen.init_doc(e, n_tables=1)
+        gen._do = orig_do
       start_snapshot = G.snapshot(e)
       undos = []
       for b in range(nb):
@@ -237,6 +394,13 @@ def _traced_run(ctx, n_hist, nb):
         except Exception:
           stats['failed_bundles'] += 1
           G.clean(e)
+          history.append(bundle)       # replays run failed bundles too (and clean up the same way)
+          if G.canon(G.snapshot(e)) != G.canon(before):
+            # the failed bundle left a trace (that is C04's subject, reported there): this document is no longer
+            # the one the undo lists were made for
+            stats['history-abandoned-after-failed-bundle-left-a-trace'] += 1
+            undos = None
+            break
           continue
         gen.after_bundle(e)
         stats['bundles'] += 1
@@ -269,26 +433,27 @@ def _traced_run(ctx, n_hist, nb):
                          'replay': {'history': copy.deepcopy(history), 'bundle': bundle}})
           stats['oracle:' + kind] += 1
         if G.snapshot(e) != after:
+          undos = None
           break                    # an oracle failed and left the document elsewhere: stop this history
         undos.append(G.reprs(out.undo))
-        if history is not None:
-          history.append(bundle)
+        history.append(bundle)
       # whole-history undo
       ok = True
-      for k, u in enumerate(reversed(undos)):
+      for k, u in enumerate(reversed(undos or [])):
         try:
           G.apply(e, [['ApplyUndoActions', u]])
         except Exception:
           ok = False
-          issues.append({'prop': 'C01', 'kind': 'history-undo-raises', 'what': traceback.format_exc()[-300:],
+          issues.append({'prop': 'C01', 'kind': classify_history_failure(traceback.format_exc()),
+                         'what': traceback.format_exc()[-300:],
                          'replay': {'history': copy.deepcopy(history), 'whole_history': True}})
           break
       if ok and undos:
         end = G.snapshot(e)
         stats['histories_undone'] += 1
-        if end != start_snapshot:
+        if G.canon(end) != G.canon(start_snapshot):
           issues.append({'prop': 'C01', 'kind': 'history-undo-differs',
-                         'what': '; '.join(G.diff_snapshots(start_snapshot, end)),
+                         'what': '; '.join(strict_diff(start_snapshot, end)),
                          'replay': {'history': copy.deepcopy(history), 'whole_history': True}})
   t_rec = time.time() - t0
   codes = eval_codes(ctx, I, terms)
@@ -323,12 +488,12 @@ def eval_codes(ctx, I, terms):
                       timeout=600)
   codes = [0] * len(terms)
   if bad:
-    # second pass on the failing traces only: one bit at a time
-    sub = [terms[i] for i in bad]
-    for bit in (1, 2, 4, 8, 16, 32, 64, 128, 256):
-      b2 = ctx.run_cases('k1b%d' % bit, k1trace.IMPORTS,
-                         'fun tr => Z.eqb (Z.land (trace_code tr) %d) 0' % bit, sub, shard=40, extra_defs=defs,
-                         timeout=600)
-      for j in b2:
-        codes[bad[j]] |= bit
+    # second pass, on the failing traces only: one case per (trace, bit)
+    bits = (1, 2, 4, 8, 16, 32, 64, 128, 256)
+    tdefs = ''.join('Definition ftr%d : trace TT := %s.\n' % (k, terms[i]) for k, i in enumerate(bad))
+    cases = ['(ftr%d, %d)' % (k, bit) for k in range(len(bad)) for bit in bits]
+    b2 = ctx.run_cases('k1bits', k1trace.IMPORTS, 'fun p => Z.eqb (Z.land (trace_code (fst p)) (snd p)) 0', cases,
+                       shard=len(cases) + 1, extra_defs=defs + tdefs, timeout=900)
+    for j in b2:
+      codes[bad[j // len(bits)]] |= bits[j % len(bits)]
   return codes
